@@ -157,6 +157,12 @@ pub(super) trait DialectHandler: Any + Debug {
         false
     }
 
+    /// The LIMIT that stands for "no limit", for dialects whose grammar has
+    /// no OFFSET without a LIMIT.
+    fn limit_for_bare_offset(&self) -> Option<i64> {
+        None
+    }
+
     fn ident_quote(&self) -> char {
         '"'
     }
@@ -407,6 +413,11 @@ impl DialectHandler for GlareDbDialect {
 }
 
 impl DialectHandler for SQLiteDialect {
+    // https://www.sqlite.org/lang_select.html#limitoffset: a negative LIMIT means no limit
+    fn limit_for_bare_offset(&self) -> Option<i64> {
+        Some(-1)
+    }
+
     fn set_ops_distinct(&self) -> bool {
         false
     }
